@@ -35,16 +35,33 @@ def inject(scratch, unit):
 
 
 def parse_kani(out):
-    """-> {harness_name: {ok, failed_checks, time, unwind_fail}}"""
+    """-> {harness_name: {ok, decided, failed_checks, time, covers, raw}}; handles sequential and `-j` (Thread N:) output"""
+    cur = {}       # thread -> harness
+    blocks = {}    # harness -> text
+    thread = None
+    for line in out.split("\n"):
+        m = re.match(r"^(?:Thread (\d+): )?Checking harness (\S+?)\.\.\.", line)
+        if m:
+            thread = m.group(1) or "0"
+            name = m.group(2).split("::")[-1]
+            cur[thread] = name
+            blocks.setdefault(name, "")
+            continue
+        m = re.match(r"^Thread (\d+):\s*$", line)
+        if m:
+            thread = m.group(1)
+            continue
+        if line.startswith("Manual Harness Summary") or line.startswith("Complete - "):
+            thread = None
+            continue
+        if thread is not None and thread in cur:
+            blocks[cur[thread]] += line + "\n"
     res = {}
-    chunks = re.split(r"(?m)^Checking harness ", out)
-    for c in chunks[1:]:
-        name = c.split("...", 1)[0].strip().split("::")[-1]
+    for name, c in blocks.items():
         ok = "VERIFICATION:- SUCCESSFUL" in c
         failed = "VERIFICATION:- FAILED" in c
         fc = re.findall(r"(?m)^Failed Checks: (.*)$", c)
         tm = re.search(r"Verification Time: ([\d.]+)s", c)
-        cover_unsat = bool(re.search(r"\*\* 0 of \d+ cover properties satisfied", c)) or "UNSATISFIABLE" in c and "cover" in c and False
         covers = re.search(r"\*\* (\d+) of (\d+) cover properties satisfied", c)
         res[name] = {
             "ok": ok and not failed, "decided": ok or failed, "failed_checks": fc, "time": float(tm.group(1)) if tm else 0.0,
@@ -71,7 +88,7 @@ def decide_kani_units(units, tier, workdir, prop):
             cmd = ["cargo", "kani", "-Z", "function-contracts", "-Z", "stubbing"] + u.get("kani_args", [])
             for h in hs:
                 cmd += ["--harness", h["name"]]
-            cmd += ["-j", str(min(8, len(hs))), "--output-format", "regular"] if len(hs) > 1 else []
+            cmd += (["-j", str(min(8, len(hs))), "--output-format", "terse"] if len(hs) > 1 else [])
             timeout = sum(h.get("timeout", 300) for h in hs) + 240
             try:
                 p = subprocess.run(cmd, cwd=scratch, capture_output=True, text=True, timeout=timeout, env=env)
